@@ -460,3 +460,82 @@ Qed.
 
 Lemma spec_need_sound : forall B t p N o, spec_need B t p = Some (N, o) -> spec_term t (spec_pipe N p) = Some o.
 Proof. intros B t p N o H. eapply spec_need_from_sound. exact H. Qed.
+
+(* ------------------------------------------------------------------ cross *)
+
+Section Cross.
+  Variables (ci : N) (g : fn2) (p1 p2 : pipe) (lb : list Z) (stb : status).
+  Hypothesis H2 : yields p2 (init p2) lb stb.
+  Let PC := PCross ci g p1 p2.
+
+  (* one row: the elements g a b for b in lb, then (if the second list is complete) what follows *)
+  Definition row_result (a : Z) (l2 : list Z) (K : partial) : partial :=
+    let (r, e) := map_until (g a) l2 in
+    match e with
+    | Some e => (r, Failed e)
+    | None => match stb with Closed => (r ++ fst K, snd K) | Open => (r, Open) | Failed e' => (r, Failed e') end
+    end.
+
+  Lemma cross_row : forall a q1 K, (forall q2x, yieldsP PC (QCross None q1 q2x) K) ->
+    forall q2 l2, yields p2 q2 l2 stb -> yieldsP PC (QCross (Some a) q1 q2) (row_result a l2 K).
+  Proof.
+    intros a q1 K HK q2 l2 H. unfold row_result.
+    remember stb as st0 eqn:Est in H.
+    induction H as [q|q l H|q l e H|q l q' items st H Hy IH|q l v q' items st H Hy IH].
+    - cbn [map_until]. rewrite <- Est. unfold yieldsP. cbn [fst snd]. apply Y_open.
+    - cbn [map_until app]. rewrite <- Est. unfold yieldsP. cbn [fst snd].
+      eapply Y_skip; [unfold PC; cbn [next]; rewrite H; reflexivity|apply HK].
+    - cbn [map_until]. rewrite <- Est. unfold yieldsP. cbn [fst snd].
+      eapply Y_fail. unfold PC. cbn [next]. rewrite H. reflexivity.
+    - specialize (IH Est). eapply yP_skip; [unfold PC; cbn [next]; rewrite H; reflexivity|exact IH].
+    - specialize (IH Est). cbn [map_until]. destruct (g a v) as [o|e] eqn:Eg.
+      + destruct (map_until (g a) items) as [r e]. 
+        assert (En : next PC (QCross (Some a) q1 q) = (l ++ [Ev ci [a; v]], Item o (QCross (Some a) q1 q'))).
+        { unfold PC. cbn [next]. rewrite H, Eg. reflexivity. }
+        destruct e as [e|].
+        * eapply (yP_item _ _ _ _ _ (r, Failed e)); eassumption.
+        * destruct stb; cbn [app].
+          -- eapply (yP_item _ _ _ _ _ (r, Open)); eassumption.
+          -- eapply (yP_item _ _ _ _ _ (r ++ fst K, snd K)); eassumption.
+          -- eapply (yP_item _ _ _ _ _ (r, Failed e)); eassumption.
+      + eapply yP_fail. unfold PC. cbn [next]. rewrite H, Eg. reflexivity.
+  Qed.
+
+  Fixpoint crossF (la : list Z) (sta : status) : partial :=
+    match la with
+    | [] => ([], sta)
+    | a :: ra => row_result a lb (crossF ra sta)
+    end.
+
+  Lemma cross_outer : forall q1 la sta, yields p1 q1 la sta ->
+    forall q2, yieldsP PC (QCross None q1 q2) (crossF la sta).
+  Proof.
+    intros q1 la sta H. induction H as [q|q l H|q l e H|q l q' items st H Hy IH|q l v q' items st H Hy IH]; intros q2;
+      cbn [crossF].
+    - apply Y_open.
+    - unfold yieldsP. cbn [fst snd]. eapply Y_done. unfold PC. cbn [next]. rewrite H. reflexivity.
+    - eapply yP_fail. unfold PC. cbn [next]. rewrite H. reflexivity.
+    - eapply yP_skip; [unfold PC; cbn [next]; rewrite H; reflexivity|apply IH].
+    - eapply yP_skip; [unfold PC; cbn [next]; rewrite H; reflexivity|].
+      apply cross_row; [exact IH|exact H2].
+  Qed.
+
+  Lemma crossF_closed : stb = Closed -> forall la sta,
+    crossF la sta = (let (ys, e) := cross_rows g la lb in cut ys e sta).
+  Proof.
+    intros Ec. induction la as [|a ra IH]; intros sta.
+    - reflexivity.
+    - cbn [crossF cross_rows]. unfold row_result. rewrite IH. rewrite Ec.
+      destruct (map_until (g a) lb) as [r e]. destruct e as [e|]; [reflexivity|].
+      destruct (cross_rows g ra lb) as [rs e']. destruct e'; reflexivity.
+  Qed.
+
+  Lemma crossF_spec : forall la sta, crossF la sta = spec_cross g (la, sta) (lb, stb).
+  Proof.
+    intros la sta. destruct la as [|a ra]; [reflexivity|].
+    cbn [spec_cross]. destruct stb eqn:Es.
+    - cbn [crossF]. unfold row_result. rewrite Es. destruct (map_until (g a) lb) as [r e]. destruct e; reflexivity.
+    - rewrite crossF_closed by exact Es. reflexivity.
+    - cbn [crossF]. unfold row_result. rewrite Es. destruct (map_until (g a) lb) as [r e0]. destruct e0; reflexivity.
+  Qed.
+End Cross.
